@@ -257,7 +257,8 @@ class C17:
         self.harness = None
         self.model = None
         self.d17_skipped = [0]
-        self.lastknot = [0, 0, 0]      # grid points with a coordinate on the last knot: agree with pointwise / differ / of these with a nonzero exact value
+        self.lastknot = [0, 0, 0, 0]   # grid points with a coordinate on the last knot: agree with pointwise / differ / with a nonzero exact value / pointwise NaN (C01 residual)
+        self.lastknot_samples = []
     def build(self):
         if self.harness is None:
             self.harness = build_harness("C17_harness", ["C17_harness.cpp"], flavour="faithful", fitter=True)
@@ -354,9 +355,14 @@ class C17:
                         ev0, ea0 = exact.get(g, (Fraction(0), Fraction(0)))
                         v0 = listed.get(g, 0.0)
                         ok0 = (v0 == v0) and math.isfinite(v0) and math.isfinite(pd0) and abs(Fraction(v0) - Fraction(pd0)) <= 2 * K_of(t) * Fraction(1, 2 ** 53) * ea0 + ETA * (1 + ea0)
-                        self.lastknot[0 if ok0 else 1] += 1
-                        if ev0 != 0:
-                            self.lastknot[2] += 1
+                        if pd0 != pd0 and any(xs[d] == t.knots[d][t.naxes[d]] and t.knots[d][t.orders[d]] == t.knots[d][t.naxes[d]] for d in range(t.ndim)):
+                            self.lastknot[3] += 1       # pointwise NaN: the fully supported range is the single point x_d (C01's residual), as in scope
+                        else:
+                            self.lastknot[0 if ok0 else 1] += 1
+                            if not ok0 and len(self.lastknot_samples) < 3:
+                                self.lastknot_samples.append({"table": t.describe(), "x": [repr(x) for x in xs], "grid": repr(v0), "pointwise": repr(pd0), "exact": str(ev0)})
+                            if ev0 != 0:
+                                self.lastknot[2] += 1
                     continue
                 if n >= len(pw) or pw[n] == "-":
                     continue            # lookup failure strictly inside the range is C04's business
@@ -523,7 +529,8 @@ class C17:
                 "grid_points_checked_against_pointwise": gp, "model_vs_impl_disagreeing_grids": ndiff, "disagreements": stats.get("diffs", [])[:5],
                 "oracle_failures": stats.get("oracle_failures", 0), "search_volume_after_break": searched, "corpus_cases": stats.get("corpus_cases", 0),
                 "grid_points_skipped_pointwise_NaN_D17": self.d17_skipped[0],
-                "beyond_scope_points_on_last_knot": {"agree_with_pointwise": self.lastknot[0], "differ": self.lastknot[1], "with_nonzero_exact_value": self.lastknot[2]},
+                "beyond_scope_points_on_last_knot": {"agree_with_pointwise": self.lastknot[0], "differ": self.lastknot[1], "with_nonzero_exact_value": self.lastknot[2],
+                                                     "skipped_pointwise_NaN_D17": self.lastknot[3], "differ_samples": self.lastknot_samples},
                 "input_distribution": {"tables_by_ndim": dims, "case_kinds": kinds, "abscissa_region_classes": dist},
                 "remarks": ["an all-zero coefficient array makes ndsparse(0, ndim) throw (recorded, not flagged: the property speaks of values only)"]}
 
